@@ -20,7 +20,7 @@ type c02Scenario struct {
 	NOld      int             `json:"n_old"`
 	NNew      int             `json:"n_new"`
 	Redeploys int             `json:"redeploys"`
-	Delays    []time.Duration `json:"point_delays"` // per c02Points entry
+	Delays    []time.Duration `json:"point_delays"`  // per c02Points entry
 	Slow      int             `json:"slow_inflight"` // background slow requests in flight per deploy
 	SlowLat   time.Duration   `json:"slow_latency"`
 	ArrStep   time.Duration   `json:"arrival_step"`
